@@ -171,7 +171,8 @@ def check_obligations(pid):
     axioms = set()
     closed = out.count('Closed under the global context')
     for m in re.finditer(r'^([A-Za-z_][\w.]*)\s*:', out, re.M):
-        axioms.add(m.group(1))
+        if m.group(1) != 'Axioms':
+            axioms.add(m.group(1))
     return {
         'theorems': theorems,
         'ok': rc == 0,
